@@ -77,7 +77,64 @@ def long_chain():
         sim.add_block([sim.cb(), t], 'grow')
         more.append(sim.blocks[-1])
     _CHAIN = (base, more)
+    # a competing branch off the base tip: three blocks with nothing but coinbases
+    alt = chain.Sim(5, b'Z')
+    alt.collisions = []
+    alt.blocks = list(base)
+    for _ in range(3):
+        alt.add_block([alt.cb()], 'alt')
+    _ALT.extend(alt.blocks[-3:])
     return _CHAIN
+
+
+_ALT = []
+
+
+def case_shrink(case, res):
+    '''A history beyond the limit (the refusal is cached) shrinks below it through a
+    reorganisation: afterwards the complete history is served, cold and cached.'''
+    config, m = case['config'], case['method']
+    base, more = long_chain()
+    limit = CONFIGS[config] // 99
+    s = boot(config)
+    try:
+        c = s.connect()
+        c.call('server.version', ['x', '1.4.2'])
+        sh = chain.scripthash_hex(script_for(GROW))
+        s.daemon.set_chain(base + more)
+        s.settle()
+        long_ref = ref_history(base + more, script_for(GROW))
+        bad = None
+        for m1 in (m, 'get_history'):
+            why = outcome_bad(c.call('blockchain.scripthash.' + m1, [sh]), m1, long_ref, limit)
+            if why:
+                bad = f'before-the-reorg:{m1}:{why}'
+        if case.get('disconnect'):
+            c.protocol.connection_lost(None)
+            s.run_idle()
+        s.daemon.add_known(base + more)
+        s.daemon.set_chain(base + _ALT)
+        s.settle()
+        if s.db.state.height != len(base) + 2:
+            raise common.Broken('the reorganisation did not happen')
+        if case.get('disconnect'):
+            c = s.connect()
+            c.call('server.version', ['y', '1.4.2'])
+        short_ref = ref_history(base + _ALT, script_for(GROW))
+        if not bad:
+            for m2 in ('get_history', 'subscribe', 'get_history'):
+                why = outcome_bad(c.call('blockchain.scripthash.' + m2, [sh]), m2, short_ref, limit)
+                if why:
+                    bad = f'after-the-reorg:{m2}:{why}'
+                    break
+        res.count('histories_shrunk_by_a_reorg')
+        if bad:
+            res.violation('history-shrunk-by-a-reorg:' + bad.split('(')[0], dict(case),
+                          dict(case, limit=limit, entries_before=len(long_ref),
+                               entries_after=len(short_ref), problem=bad))
+        res.distinct('parts', 'shrink')
+    finally:
+        s.close()
 
 
 _SNAP = None
@@ -272,7 +329,15 @@ def case_history(case, res):
             boundary = n == limit           # exactly at the derived limit either outcome is
             first_outcome = {}              # acceptable, but it must be the same cold and cached
             order = case['order']           # which request comes first (cold)
+            if order == 'admin-first':
+                # the operator looks at the script first (LocalRPC query, 1000 lines at most)
+                rpc = s.x_rpc = getattr(s, 'x_rpc', None) or s.connect(name='rpc', rpc=True)
+                r = rpc.call('query', [[script.hex()], 1000])
+                if not isinstance(r.get('result'), list):
+                    raise common.Broken(f'admin query failed: {r}')
+                res.count('admin_queries')
             seq = {'hist-first': ['get_history', 'get_history', 'subscribe', 'subscribe'],
+                   'admin-first': ['get_history', 'subscribe', 'get_history', 'subscribe'],
                    'sub-first': ['subscribe', 'subscribe', 'get_history', 'get_history'],
                    'mixed': ['subscribe', 'get_history', 'subscribe', 'get_history']}[order]
             for j, m in enumerate(seq):
@@ -494,7 +559,9 @@ def case_inflight(case, res):
 
 
 def run_case(case, res):
-    if case['kind'] == 'inflight':
+    if case['kind'] == 'shrink':
+        case_shrink(case, res)
+    elif case['kind'] == 'inflight':
         case_inflight(case, res)
     elif case['kind'] == 'headers':
         case_headers(case, res)
@@ -515,7 +582,7 @@ def cases_for(tier):
     cases = [dict(kind='headers', lo=i, hi=i + 1, stale_tail=st) for i in range(7)
              for st in (False, True)]
     for config in CONFIGS:
-        for order in ('hist-first', 'sub-first', 'mixed'):
+        for order in ('hist-first', 'sub-first', 'mixed', 'admin-first'):
             cases.append(dict(kind='history', config=config, order=order))
     for config in CONFIGS:
         for n in LENGTHS:
@@ -524,6 +591,10 @@ def cases_for(tier):
                     for other in (False, True):
                         cases.append(dict(kind='inflight', config=config, n=n, variant=variant,
                                           method=m, other_cached=other))
+    for config in CONFIGS:
+        for m in ('get_history', 'subscribe'):
+            for disconnect in (False, True):
+                cases.append(dict(kind='shrink', config=config, method=m, disconnect=disconnect))
     return cases
 
 
